@@ -24,7 +24,10 @@ from ..vloop import VLoop
 ID = 'C12'
 VALUES = (1, 'a', -1, '', ())  # '' = a falsy value of the wrong type for int ports and int-typed namespaces; () = the empty tuple
 FINALS = (('ret', None), ('ret', 5), ('unsucc', 3))
-FINAL_RESULT = {('ret', None): (None, True), ('ret', 5): (5, True), ('unsucc', 3): (3, False)}
+# the Stop command with either flag: only next to sequences of at most one emission
+STOP_FINALS = (('stop', 5, True), ('stop', 5, False))
+FINAL_RESULT = {('ret', None): (None, True), ('ret', 5): (5, True), ('unsucc', 3): (3, False),
+                ('stop', 5, True): (5, True), ('stop', 5, False): (5, False)}
 
 
 def out_ports() -> List[tuple]:
@@ -165,6 +168,9 @@ def make_proc_class(desc: tuple, cell: Dict[str, Any]) -> type:
                     log.append(('raised', exc, before, copy.deepcopy(self.outputs)))
             if final[0] == 'unsucc':
                 return plumpy.UnsuccessfulResult(final[1])
+            if final[0] == 'stop':
+                from plumpy import process_states
+                return process_states.Stop(final[1], final[2])
             return final[1]
 
     return Proc
@@ -274,7 +280,7 @@ def check_spec(args: Tuple[tuple, int]) -> Dict[str, Any]:
     loop.install()
     try:
         for emissions in emission_seqs(desc, max_len):
-            for final in FINALS:
+            for final in FINALS + (STOP_FINALS if len(emissions) <= 1 else ()):
                 if len(emissions) == 2 and final != FINALS[1] and emissions[0][0] == emissions[1][0]:
                     continue
                 out['n'] += 1
